@@ -102,8 +102,15 @@ func TraverseStringsFunc[T any](v T, fn func(v string) (string, error)) (T, erro
 			copy.Set(copyValue)
 
 		case reflect.Struct:
-			// Loop over each field and call traverseFunc recursively
+			// Start from a copy of the whole struct: fields that cannot be set
+			// (the unexported fields of e.g. a time.Time, which an unquoted YAML
+			// timestamp decodes to) keep their values
+			copy.Set(v)
+			// Loop over each settable field and call traverseFunc recursively
 			for i := range v.NumField() {
+				if !copy.Field(i).CanSet() {
+					continue
+				}
 				if err := traverseFunc(copy.Field(i), v.Field(i)); err != nil {
 					return err
 				}
@@ -126,8 +133,12 @@ func TraverseStringsFunc[T any](v T, fn func(v string) (string, error)) (T, erro
 			for _, key := range v.MapKeys() {
 				// Create a copy of each map index
 				originalValue := v.MapIndex(key)
-				if originalValue.IsNil() {
-					continue
+				// Only some kinds of values can be nil (a map[string]string has none)
+				switch originalValue.Kind() {
+				case reflect.Interface, reflect.Ptr, reflect.Map, reflect.Slice:
+					if originalValue.IsNil() {
+						continue
+					}
 				}
 				copyValue := reflect.New(originalValue.Type()).Elem()
 				// Call traverseFunc recursively
